@@ -174,6 +174,14 @@ class Check(Property):
             if e1 or e2:
                 v.append(f"C05 inside the active context {ctx!r}: {qa!r} == {qb!r} is {e1} / {e2} although the dimensionalities differ "
                          f"(ordering them raises DimensionalityError, the hashes differ)")
+        # two quantities in the SAME unit are ordered like their magnitudes, however close (no detour through another unit)
+        import math
+        for unit in ("inch", "percent", "mile", "pound", "hour", "degree"):
+            for x, y in ((630.5737240698489, math.nextafter(630.5737240698489, math.inf)), (2 ** 53, 2 ** 53 + 1), (0.1, math.nextafter(0.1, 1.0))):
+                qa, qb = u.Quantity(x, unit), u.Quantity(y, unit)
+                got = (bool(qa < qb), bool(qa == qb), bool(qa > qb), bool(qa <= qb), bool(qa >= qb))
+                if got != (True, False, False, True, False):
+                    v.append(f"C05 {qa!r} vs {qb!r} (same unit, magnitudes {x!r} < {y!r}): (<, ==, >, <=, >=) = {got}")
         return v
 
     def oracle(self, c):
